@@ -241,7 +241,22 @@ EARLIER = [
 LATER = ["set batch = 7", "alter table t1 cluster by (a)", "create tag t", "select a from t1", "unset shared_name", "select $shared_name as x from t1"]
 
 
+def _warm_up() -> None:
+    """Process-level state (module globals of fakesnow) outlives sessions and instances.  Every path first lets throw-away sessions of
+    another instance run all the prefixes, so that whatever such state they leave is present in every path - also in the replay, which
+    runs in a fresh process."""
+    for pre in EARLIER:
+        e0 = std_engine()
+        c0 = instance(e0).connect(database="db1", schema="s1")
+        for q in pre:
+            try:
+                c0.cursor().execute(q)
+            except snowflake.connector.errors.ProgrammingError:
+                pass
+
+
 def _cross_session(ei: int, li: int, has_schema: bool) -> bool:
+    _warm_up()
     eng = std_engine()
     fs = instance(eng)
     A = fs.connect(database="db1", schema="s1")
@@ -283,3 +298,30 @@ def cross_session(ei: int, li: int, has_schema: bool) -> bool:
     post: _
     """
     return done(fast.native(_cross_session, fast.pick(ei, len(EARLIER)), fast.pick(li, len(LATER)), bool(fast.pick(has_schema, 2))))
+
+
+# ------------------------------------------------------------------ independence of what happened before (shared harness)
+import obligations.shared_independence as _indep  # noqa: E402
+
+_IND_PRIORS = (11,)
+
+
+@ob(
+    "C19.another_sessions_activity_does_not_matter",
+    encodes=["fakesnow.cursor.FakeSnowflakeCursor.execute/_transform/_execute/description/fetch*", "fakesnow.conn / fakesnow.variables / fakesnow.transforms (any state kept between statements)"],
+    bounds="prior activity: comment, SET, failing statement, USE and BEGIN executed by another session of the instance; then one of " + str(len(_indep.SUBJECTS)) + " statements (queries, DML, DDL with metadata, COMMENT, "
+    "DESCRIBE, SHOW, USE, SET, MERGE, seeded RANDOM, BEGIN, a nop_regexes match, two failing statements, TRUNCATE) on the same or another cursor, tuple or "
+    "dict: SQL reaching the engine, rows, rowcount, description names, error, sqlstate, session context and the statement's own effect on catalog, "
+    "metadata and variables equal those on a fresh identical session",
+    timeout=(300, 600),
+    stubs=["K1/K2/K6 vf.duckstub.Engine"],
+    shards=(11, 11),
+)
+def independence(si: int, pk: int, as_dict: bool, same_cursor: bool) -> bool:
+    """
+    pre: 0 <= si < len(_indep.SUBJECTS) and 0 <= pk < len(_IND_PRIORS) and (SHARD < 0 or si % 11 == SHARD)
+    post: _
+    """
+    from vf import fast as _f
+
+    return done(_f.native(_indep.independent, _f.pick(si, len(_indep.SUBJECTS)), _IND_PRIORS[_f.pick(pk, len(_IND_PRIORS))], bool(_f.pick(as_dict, 2)), bool(_f.pick(same_cursor, 2))))
